@@ -443,7 +443,8 @@ RULES = [
     Rule('C05.V2', 'a header deserialised from file bytes is accepted only after magic + header-CRC validation', v2, 3),
     Rule('C05.V3', 'the header patch positions equal the sizes of the trailing fields of record::Header', v3, 3),
     Rule('C05.V4', 'the checksum audits return Ok only on the equal edge of computed vs stored CRC', v4, 2),
-    Rule('C05.V6', 'a two-buffer record is written head first: the data buffer follows the successful write of the head', v6, 1),
+    # C05.V6 (two-buffer records are written head first) was retired: it was a necessary condition only while re-opened files
+    # were O_APPEND descriptors (finding F14); with positional writes both orders of the two pwrites are equivalent.
     Rule('C05.V7', 'the sequential scan reads record data only after advancing the cursor by header size and meta size', v7, 1),
     Rule('C05.V8', 'the data-validation flag handed to the regeneration scan is the configured flag and nothing else', v8, 2),
     Rule('C05.V9', 'the configured data-validation flag reaches every blob config unchanged (builder forwards it, no constructor resets it)', v9, 3),
